@@ -690,6 +690,40 @@ fn three_sets(ctx: &mut Ctx) {
     }
     // temporaries: an accumulator receives unions / differences of sets that live for one loop turn
     if ctx.shard == 3 % ctx.nshards {
+        // in a FRESH environment: a set dies while it is empty / the universe before anything else
+        // was ever built
+        for bits in [0usize, 1, 2, 5] {
+            for mirror in [false, true] {
+                let case = json!({"part": "temporaries", "bits": bits, "fresh": true, "mirror": mirror});
+                ctx.begin_case(|| case.clone());
+                let r = guarded(|| -> Option<String> {
+                    let env = Rc::new(BDDEnv::new());
+                    let a = BDDSet::with_env(bits, &env);
+                    if !mirror {
+                        a.universe();
+                        drop(BDDSet::with_env(bits, &env));
+                        if !a.contains(0usize) {
+                            return Some("the universe does not contain 0 after an empty set of the same environment was dropped".to_string());
+                        }
+                    } else {
+                        {
+                            let t = BDDSet::with_env(bits, &env);
+                            t.universe();
+                        }
+                        a.insert(0usize);
+                        if !a.contains(0usize) {
+                            return Some("0 is missing after its insertion following the drop of a universe set".to_string());
+                        }
+                    }
+                    None
+                });
+                match r {
+                    Err(p) => ctx.violation(format!("C19 a set dropped while constant, fresh environment, {bits} bits, mirror {mirror}"), format!("panicked: {p}"), case),
+                    Ok(Some(m)) => ctx.violation(format!("C19 a set dropped while constant, fresh environment, {bits} bits, mirror {mirror}"), m, case),
+                    Ok(None) => ctx.count("temporary_operand_histories", 1),
+                }
+            }
+        }
         for bits in [2usize, 4, 9] {
             let case = json!({"part": "temporaries", "bits": bits});
             ctx.begin_case(|| case.clone());
